@@ -166,7 +166,7 @@ class DataExtensionHeader(NITFElement):
     def DESID(self, value):
         value = _parse_str(value, 25, 'XML_DATA_CONTENT', 'DESID', self)
         self._DESID = value
-        if value == 'TRE_OVERFLOW':
+        if value.strip() == 'TRE_OVERFLOW':
             if self.DESOFLW is None:
                 self._DESOFLW = ''
             if self.DESITEM is None:
@@ -192,7 +192,7 @@ class DataExtensionHeader(NITFElement):
     @DESOFLW.setter
     def DESOFLW(self, value):
         value = _parse_str(value, 6, None, 'DESOFLW', self)
-        if self._DESID == 'TRE_OVERFLOW':
+        if self._DESID.strip() == 'TRE_OVERFLOW':
             if value is None:
                 logger.error(
                     'DESOFLW value is None, but DESID == "TRE_OVERFLOW".\n\t'
@@ -227,7 +227,7 @@ class DataExtensionHeader(NITFElement):
     @DESITEM.setter
     def DESITEM(self, value):
         value = _parse_int(value, 3, None, 'DESITEM', self)
-        if self._DESID == 'TRE_OVERFLOW':
+        if self._DESID.strip() == 'TRE_OVERFLOW':
             if value is None:
                 logger.error(
                     'DESITEM value is None, but DESID == "TRE_OVERFLOW".\n\t'
